@@ -135,10 +135,6 @@ def do_op(ms, op, track):
     meth = getattr(target, act)
     if act in ('inc', 'dec', 'set', 'observe'):
         x = py_of(arg)
-        if isinstance(x, int) and not isinstance(x, bool) and abs(x) >= 2 ** 50:
-            # `Counter.reset()` stores the int 0, after which int amounts are added EXACTLY by both real back-ends
-            # (Python ints) while the models add doubles; amounts are doubles in C12, so a huge int is passed as float
-            x = float(x)
         meth(x)
         if act == 'set':
             track(i, tuple(target._labelvalues), 'set', 1)
@@ -146,10 +142,12 @@ def do_op(ms, op, track):
     meth()
 
 
-def flatten(fams, raw):
+def flatten(fams, raw, meta=None):
     """[(family, sample name, sorted labels, value, number of labels)] without `_created` samples of the families
-    that have them"""
+    that have them; `meta` collects (name, type, documentation) per family"""
     for fam in fams:
+        if meta is not None:
+            meta.append((fam.name, fam.type, fam.documentation))
         for s in fam.samples:
             if fam.type in ('counter', 'summary', 'histogram') and s.name == fam.name + '_created':
                 continue
@@ -165,6 +163,7 @@ class Run:
         self.err = [None, None]          # constructor exception class per back-end
         self.outs = [[], []]
         self.raw = [[], []]
+        self.meta = [[], []]         # (family name, type, help) per back-end
         self.collect_err = [None, None]
         self.sets = [set(), set()]       # (metric index, child key) with an accepted set since the child was created
         self.removed = [set(), set()]    # metric indices on which a remove/clear deleted a child
@@ -211,11 +210,11 @@ class Run:
                             self.outs[side].append(type(e).__name__)
                     try:
                         if side == 0:
-                            flatten(reg.collect(), self.raw[0])
+                            flatten(reg.collect(), self.raw[0], self.meta[0])
                             self.live = {i: set((getattr(m, '_metrics', None) or {}).keys()) if m._labelnames else {()}
                                          for i, m in enumerate(ms)}
                         else:
-                            flatten(MultiProcessCollector(CollectorRegistry(), sim.dir).collect(), self.raw[1])
+                            flatten(MultiProcessCollector(CollectorRegistry(), sim.dir).collect(), self.raw[1], self.meta[1])
                     except Exception as e:
                         self.collect_err[side] = type(e).__name__
         finally:
@@ -283,8 +282,13 @@ def has_signed_zeros(spec):
     return any(b == 0 and math.copysign(1, b) < 0 for b in bs) and any(b == 0 and math.copysign(1, b) > 0 for b in bs)
 
 
-def oracle(case, run):
-    """-> list of (signature, description)"""
+def signed_zero_diff(a, b):
+    return a == 0 and b == 0 and math.copysign(1.0, a) != math.copysign(1.0, b)
+
+
+def oracle(case, run, stats=None):
+    """-> list of (signature, description).  `stats` (dict) counts documented limits seen: values that agree
+    numerically but differ in the sign of zero (the collector's `0.0 + value`)"""
     fails = []
     if run.err[0] != run.err[1]:
         return [('C12:constructor-outcome-differs', 'constructors: in-process %r, file-backed %r' % (run.err[0], run.err[1]))]
@@ -304,9 +308,32 @@ def oracle(case, run):
         fails.append(('C12:duplicate-series-in-process', d))
     for d in db:
         fails.append(('C12:duplicate-series-multiprocess', d))
+    # family metadata: every family the collector reports is an in-process family with the same type and help,
+    # reported once; every in-process family that has a sample is reported (never-set mostrecent gauges aside)
+    inproc = {}
+    for name, typ, doc in run.meta[0]:
+        inproc.setdefault(name, (typ, doc))
+    seen_mp = set()
+    for name, typ, doc in run.meta[1]:
+        if name in seen_mp:
+            fails.append(('C12:family-reported-twice', 'the collector lists family %r twice' % name))
+        seen_mp.add(name)
+        if name not in inproc:
+            fails.append(('C12:family-metadata-differs', 'family %r is reported by the collector only' % name))
+        elif inproc[name] != (typ, doc):
+            fails.append(('C12:family-metadata-differs', 'family %r: in-process (type, help) %r, multiprocess %r'
+                          % (name, inproc[name], (typ, doc))))
+    fams_with_samples = {family_of(case, k[0])[1]['name'] for k in A if family_of(case, k[0])[1] is not None}
+    for name in sorted(fams_with_samples - seen_mp):
+        i, spec = spec_of(case, name)
+        if i not in run.removed[0]:
+            fails.append(('C12:family-metadata-differs', 'family %r has in-process samples but is not reported by the collector' % name))
     seen = set()
     for k in sorted(set(A) | set(B)):
         if k in A and k in B and feq(A[k], B[k]):
+            if stats is not None and signed_zero_diff(A[k], B[k]):
+                stats['signed-zero-sum'] = stats.get('signed-zero-sum', 0) + 1
+                stats.setdefault('signed-zero-sum-sample', '%s%r: in-process %r, multiprocess %r' % (k[0], dict(k[1]), A[k], B[k]))
             continue
         i, spec, suf = family_of(case, k[0])
         kind = spec['kind'] if spec else '?'
@@ -470,6 +497,9 @@ def corpus():
     cs.append(make_case([mspec('counter')], [call(0, None, 'inc', ['i', 2 ** 53 + 1]), call(0, None, 'reset'),
                                              call(0, None, 'inc', ['i', 2 ** 53 + 1]), call(0, None, 'inc', ['i', 1]),
                                              call(0, None, 'inc', F(-1.0)), call(0, [S('a')], 'inc', F(1.0))]))
+    # the sign of zero: a cell that only ever received -0.0 is 0.0 + -0.0 = 0.0 through the collector (numerically equal)
+    cs.append(make_case([mspec('counter'), mspec('summary', 'req_x'), mspec('gauge', 'h1', mode='livesum')],
+                        [call(0, None, 'inc', F(-0.0)), call(1, None, 'observe', F(-0.0)), call(2, None, 'set', F(-0.0))]))
     # summary; three metrics sharing nothing but the process; help text with every escape-relevant character
     cs.append(make_case([mspec('summary', 'm', ['l'], help_text='é "q" \\ \n x'), mspec('counter', 'req_x', ['l']),
                          mspec('gauge', 'h1', ['l'], mode='livesum')],
@@ -533,6 +563,7 @@ class Batch:
         self.items = []
         self.nfail = {}
         self.ndiv = 0
+        self.limits = {}
 
     def add(self, case, label):
         ctx = self.ctx
@@ -553,7 +584,7 @@ class Batch:
         ctx.case(json.dumps([case['specs'], case['ops']], sort_keys=True, default=str) if nontrivial else None,
                  {'specs': case['specs'], 'ops': case['ops'][:5], 'outcomes': run.outs[0][:5],
                   'series': len(run.raw[0])} if label not in ('alphabet',) else None)
-        for sig, what in oracle(case, run):
+        for sig, what in oracle(case, run, self.limits):
             ctx.count('oracle-fail:' + sig)
             self.nfail[sig] = self.nfail.get(sig, 0) + 1
             if self.nfail[sig] > 2:
@@ -712,6 +743,12 @@ def run(ctx):
         if len(b.items) >= 50:
             b.flush()
     b.flush()
+    ctx.extra['documented_limits'] = {
+        'signed-zero-sum': b.limits.get('signed-zero-sum', 0),
+        'signed-zero-sum-meaning': 'series whose two values are numerically equal zeros of different sign: the collector reports 0.0 + value '
+                                   '(defaultdict(float) +=), so a cell holding -0.0 is collected as 0.0; C12 compares values numerically',
+        'signed-zero-sum-sample': b.limits.get('signed-zero-sum-sample'),
+    }
 
 
 def replay(ctx, case):
